@@ -577,6 +577,22 @@ theorem honest_rules (st : Setting K V me0 g0 as) :
       rw [e1', e2] at this
       exact this
 
+/-- A1 for both vote types (the agreement proof needs it for precommits only): an honest validator
+    signs at most one vote of a type per round of a height, over the whole run -/
+theorem one_vote_per_round (st : Setting K V me0 g0 as) (t : Nat) (j : Nat) (r : Int) (x y : Option Bytes) (s s' : Nat)
+    (hf : Honest K me0 j) (h1 : voteAt K me0 g0 as h t j r x s) (h2 : voteAt K me0 g0 as h t j r y s') : x = y := by
+  rcases h1 with h1 | ⟨k1, hk1, hm1, w1, hw1, a1, b1, c1, d1⟩
+  · exact absurd hf h1
+  rcases h2 with h2 | ⟨k2, hk2, hm2, w2, hw2, a2, b2, c2, d2⟩
+  · exact absurd hf h2
+  have hkk : k1 = k2 := st.dist k1 k2 j hk1 hk2 hm1 hm2
+  subst hkk
+  have m1 := signed_mono st k1 hk1 s (max s s') (Nat.le_max_left _ _) w1 hw1
+  have m2 := signed_mono st k1 hk1 s' (max s s') (Nat.le_max_right _ _) w2 hw2
+  have f := (gi st (max s s') k1 hk1).1
+  have e := eq_of_uniq _ f.a3.uniq w1 w2 m1 m2 ⟨a1.trans a2.symm, b1.trans b2.symm, c1.trans c2.symm⟩
+  rw [← d1, ← d2, e]
+
 /-- C01, LAYER 2: in every valid run of the system - any schedule, any messages, unforgeable
     signatures, less than one third of the power outside the honest nodes - two nodes never commit
     different blocks at one height -/
